@@ -122,7 +122,7 @@ func feBuiltin(p *lang.Process, cmd string, params []string) error {
 		return fmt.Errorf("no builtin exists with the name `%s`", cmd)
 	}
 
-	fork := p.Fork(lang.F_DEFAULTS)
+	fork := p.Fork(lang.F_PARENT_VARTABLE)
 	fork.Name.Set(cmd)
 	fork.Parameters.DefineParsed(params)
 	fork.FileRef = p.FileRef
